@@ -48,7 +48,7 @@ typedef struct {
   volatile int verdict;
   char msg[300];
   uint32_t ncp, switches, conflicts, maxthreads;
-  uint64_t steps, obs, vticks;
+  uint64_t steps, obs, vticks, user_cases;
   cp_t cp[MAXCP];
 } trace_t;
 
